@@ -8,6 +8,7 @@ domain and its outcome compared with spec/PyTealSem.tla's meaning of the recipe 
 import sys
 import os
 import random
+import time
 
 sys.path.insert(0, os.path.dirname(os.path.abspath(__file__)))
 import common  # noqa: E402
@@ -18,10 +19,14 @@ import findings  # noqa: E402
 
 
 def main():
+    if os.environ.get("VERIF_REPLAY"):
+        streams.replay_refinement("C01", os.environ["VERIF_REPLAY"])
     chk = common.Check("C01")
     tier, seed = common.tier(), common.seed()
     rnd = random.Random(seed)
+    t0 = time.time()
     progs, gres = streams.c01_programs(tier, seed, rnd)
+    t1 = time.time()
     for r in gres:
         chk.add_tlc(r)
         if r.error:
@@ -37,7 +42,10 @@ def main():
             entries.append(e)
             metas.append(meta)
             owners.append(p)
+    t2 = time.time()
     verdicts, tres, errors = pipeline.run_refine(entries, "c01", max_steps=2500)
+    t3 = time.time()
+    chk.notes["phase_seconds"] = {"generate": round(t1 - t0, 1), "replay_compile": round(t2 - t1, 1), "tlc_validate": round(t3 - t2, 1)}
     for r in tres:
         chk.add_tlc(r)
     for e in errors:
